@@ -206,6 +206,12 @@ func checkCSG(c csgCase, o *kit.Obs) error {
 		return nil
 	case "conj":
 		var xs []model3d.Transform
+		// the lattice lives in the transformed space: several enlarging maps at a small spacing ask for
+		// billions of cells, which is a cost of the case, not a defect
+		if cells := gen.LatticeCells(gen.Xform3{Kind: "joined", Parts: c.Conj}, m3.V3(solid.Min()), m3.V3(solid.Max()), c.Delta); cells > 4e6 {
+			o.Skip("lattice too large")
+			return nil
+		}
 		if (gen.Xform3{Kind: "joined", Parts: c.Conj}).Det() < 0 {
 			if kit.Excluded("conj-reflection") {
 				kit.CountExcluded("conj-reflection")
